@@ -1,7 +1,8 @@
 """C13 — the sort key follows the --tiebreak criteria in order."""
-import itertools
+import itertools, os
 
 ID = "C13"
+NEEDS_SK = True     # the binary-level tiebreak stream (below) runs the real `sk` under a pty
 N_QUICK, N_THOROUGH = 6000, 120000
 STRICT_MODEL = True
 RULE = ("tiebreak strings = comma-joined words over the 8 names, letter-case variants, junk words, empty words, "
@@ -297,3 +298,74 @@ LEVEL_TEXT = ("Theorems c13_* prove for every tiebreak string and every in-range
               "build_rank and MatchedItem::cmp.")
 LEVEL_NOTE = ("Trusted: Lean kernel + propext/Classical.choice/Quot.sound; extractor rank.py; str::to_lowercase vs ASCII folding and "
               "[i32;4]::cmp are assumptions exercised by the harness; engines' (score, begin, end) computation belongs to C08.")
+
+
+# ---- binary level: the --tiebreak plumbing of src/bin/main.rs, metamorphic -------------------------------------------
+# Two tiebreak lists with the SAME effective key (c13_effective: known words, score prepended unless listed, adjacent repeats collapsed,
+# first four) must rank every input the same way: the item accepted with Enter (the top-ranked one) is the same.  The lists differ only
+# in what lies behind the fourth slot, or in how the option is spelled (one flag / several flags).
+KNOWN = ["score", "begin", "end", "length", "-score", "-begin", "-end", "-length"]
+
+
+def effective(words):
+    ws = [w.lower() for w in words if w.lower() in KNOWN]
+    if "score" not in ws and "-score" not in ws:
+        ws = ["score"] + ws
+    out = []
+    for w in ws:
+        if not out or out[-1] != w:
+            out.append(w)
+    return out[:4]
+
+
+def cli_pairs(rng, n):
+    from .c05cli import enc
+    pairs = []
+    tries = 0
+    while len(pairs) < n and tries < 2000:
+        tries += 1
+        head = [rng.choice(["begin", "end", "length", "-length", "-begin", "index"]) for _ in range(rng.randint(3, 5))]
+        a = head + [rng.choice(["length", "-end", "begin"])]
+        b = head + [rng.choice(["-length", "end", "-begin"])]
+        if effective(a) != effective(b) or a == b:
+            continue
+        items = rng.sample(["abcd", "abcdefgh", "abcdef", "xabcd", "abcdx y"], rng.choice([2, 3]))
+        mk = lambda tb: "K|sort,tb=%s,q=%s|%s|%s" % (enc(",".join(tb)), enc("abcd"), ",".join(enc(i) for i in items), " ".join(enc(k) for k in ["enter", "ctrl-c"]))
+        pairs.append((mk(a), mk(b), ",".join(a), ",".join(b)))
+    return pairs
+
+
+def run(tier, seed, replay):
+    import json, random, sys
+    from vlib import core
+    from vlib.props import c05cli
+    mod = sys.modules[__name__]
+    rc = core.run_property(mod, tier, seed, replay)
+    if replay:
+        return rc
+    rng = random.Random(seed + 77)
+    pairs = cli_pairs(rng, 8 if tier == "quick" else 60)
+    outs = c05cli.python_harness([p[0] for p in pairs] + [p[1] for p in pairs])
+    bad = 0
+    for i, p in enumerate(pairs):
+        oa, ob = outs[i], outs[len(pairs) + i]
+        if oa != ob:
+            # once more, slowly (keystroke timing is the only non-determinism)
+            oa, ob = c05cli.python_harness([p[0], p[1]], attempt=1)
+        if oa != ob:
+            bad += 1
+            path = core.write_replay(ID, seed, "tb%d" % i, dict(kind="cli-mismatch", stream="binary-level tiebreak pairs", case=p[0], other_case=p[1],
+                                     impl_output=oa, other_output=ob, spec_verdict="bad:same-effective-key-different-ranking:%s vs %s" % (p[2], p[3])))
+            print("VIOLATION property=%s replay=%s" % (ID, path))
+    try:
+        ep = os.path.join(core.ROOT, "evidence", ID + ".json")
+        ev = json.load(open(ep))
+        ev["coverage"]["binary_level_tiebreak_pairs"] = dict(pairs=len(pairs), mismatches=bad,
+            what="sk (sorting on) under a pty with two --tiebreak lists of the same effective key: the accepted top item must be the same")
+        if bad:
+            ev["violations"] = ev.get("violations", 0) + bad
+        json.dump(ev, open(ep, "w"), indent=1, ensure_ascii=False)
+    except Exception:
+        pass
+    print("%s binary-level: %d tiebreak pairs, %d mismatches" % (ID, len(pairs), bad))
+    return 1 if (rc or bad) else 0
